@@ -51,10 +51,13 @@ def _worker_init():
 
 
 def _task(payload):
-    profile_name, verif_seed, index, keep = payload
+    profile_name, verif_seed, index, keep, tier = payload
     prof = get_profile(profile_name)
     seed = run_seed(verif_seed, profile_name, index)
-    hist = prof['gen'](seed)
+    if prof.get('gen_indexed'):
+        hist = prof['gen_indexed'](seed, index, tier)
+    else:
+        hist = prof['gen'](seed)
     res = simulate(hist, prof['props'], prof.get('opts'))
     out = {
         'index': index,
@@ -107,17 +110,21 @@ class BatchResult:
                 self.extra[k] = max(self.extra.get(k, 0), v)
         if out['violations']:
             self.violating.append(out)
-        if 'hist' in out and not out['violations'] and len(self.samples) < 3:
+        if 'hist' in out and not out['violations'] and len(self.samples) < 5:
             self.samples.append(out)
 
     def batch_digest(self):
         return sha(canon(self.digests))
 
 
-def run_batch(profile_name, verif_seed, n_runs, workers, wall_limit, first_index=0, progress=None):
+def run_batch(profile_name, verif_seed, n_runs, workers, wall_limit, first_index=0, progress=None, tier='quick'):
     lib.load()
     res = BatchResult()
-    payloads = [(profile_name, verif_seed, first_index + i, i < 3) for i in range(n_runs)]
+    fixed = get_profile(profile_name).get('fixed_runs')
+    n_fixed = fixed(tier) if fixed else 0
+    # samples: the first deterministic histories and the first seeded ones
+    keep = set([0, 1, n_fixed, n_fixed + 1, n_fixed + 2])
+    payloads = [(profile_name, verif_seed, first_index + i, (first_index + i) in keep, tier) for i in range(n_runs)]
     pool = Pool(workers, _task, _worker_init)
     try:
         outs = pool.run(payloads, wall_limit=wall_limit, on_result=progress)
@@ -257,7 +264,17 @@ def check(prop, tier, verif_seed, n_runs, workers, wall_limit, quiet=False):
             print(msg, flush=True)
 
     say('check %s tier=%s seed=%d runs=%d workers=%d tree=%s' % (prop, tier, verif_seed, n_runs, workers, lib.tree_id()))
-    res = run_batch(prop, verif_seed, n_runs, workers, wall_limit)
+    prog = {'done': 0, 'bad': 0, 'next': max(5000, n_runs // 20)}
+
+    def progress(idx, out):
+        prog['done'] += 1
+        if out['violations']:
+            prog['bad'] += 1
+        if n_runs >= 20000 and prog['done'] >= prog['next']:
+            prog['next'] += max(5000, n_runs // 20)
+            say('  progress: %d/%d runs, %d violating, %.0fs' % (prog['done'], n_runs, prog['bad'], time.time() - t0))
+
+    res = run_batch(prop, verif_seed, n_runs, workers, wall_limit, progress=progress, tier=tier)
     t_batch = time.time() - t0
 
     # group violations by class; minimise the lowest run index of each class
